@@ -186,7 +186,7 @@ def c05_check(case, out, bent=False, unwrap=False, skip_ill=False):
         for pc in pieces:
             iv_or.append((acc, acc + pc['share']))
             acc += pc['share']
-        tol = TOL_SHARE + c04.conditioning(case, j, bent)
+        tol = TOL_SHARE + c04.conditioning(case, j, bent) + c04.geo_slack(max(len(blk), len(pieces)) + 1, D)
         if abs(tot_impl - acc) > tol:
             probs.append(f'segment {j}: shares add up to {tot_impl!r}, the pieces of the map line measure {acc!r}')
             continue
